@@ -46,6 +46,18 @@ if wave == "f":
              "The change may be a new special-case branch, a changed constant expression, a changed macro arm, a changed `where` bound / trait impl picked only for some types, or an "
              "edit of a branch that only some configuration reaches. Keep it small (1-15 lines) and plausible ('micro-optimisation for the common case', 'debug-only check', "
              "'simplification valid for the defaults'). It must still break the property for SOME configuration inside the property's quantifier and satisfy (a)-(d).\n\n")
+if wave == "g":
+    WAVE2 = ("This is a SEVENTH ROUND. Earlier rounds produced single-statement slips, cooperating edits, defects disguised as refactorings, additive feature commits, contract drift at "
+             "layer boundaries and configuration-conditional defects -- mostly in the core files (atomic_move.rs, full_sync_move.rs, streams_manager.rs, the ogre_arc channels, "
+             "mmap_meta.rs, the pool allocator, stream_executor.rs). This time place the change in code those rounds RARELY TOUCHED, whichever of it this property depends on directly or "
+             "through a call chain: src/uni/uni.rs and src/multi/multi.rs (the Uni / Multi API objects: spawn_* methods, close / flush, executor bookkeeping, the close macros), "
+             "src/types.rs (channel traits and their default methods), src/prelude/*.rs (type aliases pairing containers, allocators and sizes), src/mutiny_stream.rs, "
+             "src/ogre_std/ogre_alloc/ogre_unique.rs and ogre_arc.rs (constructors, conversions, Deref / AsRef / Debug / PartialEq impls), src/ogre_std/ogre_alloc/types.rs, "
+             "src/ogre_std/ogre_queues/meta_publisher.rs / meta_subscriber.rs / meta_container.rs / mod.rs (trait defaults), the NonBlockingQueue wrappers "
+             "(ogre_queues/atomic/non_blocking_queue.rs, ogre_queues/full_sync/non_blocking_queue.rs), the two stacks, the zero-copy containers (atomic_zero_copy.rs, "
+             "full_sync_zero_copy.rs), src/multi/channels/reference/mmap_log.rs, src/multi/channels/arc/crossbeam.rs and src/uni/channels/movable/crossbeam.rs, src/instruments.rs. "
+             "Any style of the earlier rounds is fine (slip, disguised refactor, additive fast path, contract drift, conditional). Keep each change small (1-15 lines), plausible, and make sure it "
+             "breaks THIS property and satisfies (a)-(d). If the property cannot be broken from any of those files, say so and use the closest glue code you can find.\n\n")
 print(f"""You are helping to test a verification tool by playing the adversary. You have your own scratch git worktree of a Rust library
 (zertyz/reactive-mutiny: async reactive event library with Uni/Multi channels over custom lock-free queues, pool allocators, OgreArc refcounting,
 an mmap log channel and stream executors) at {wt}. Work ONLY inside {wt} and {wt}-out. Never read or write /repo or /verif.
